@@ -61,8 +61,9 @@ C_VALUES: typing.Dict[str, list] = {
     "enable_serialization_asserts": [False, True],
     "enable_override_variable_array_capacity": [False, True],
     "cast_format": ["(({type}) {value})", "(({type})({value}))", "({type}) {value}"],
-    # `--language-standard c11` is the documented C value of that flag; C has no built-in default for `std`
-    "std": [ABSENT, "c11"],
+    # `--language-standard c11` is the documented C value of that flag (c99 is named in its help text; only reachable via
+    # a configuration file); ABSENT = key not set anywhere (equals the built-in default when the tree defines one)
+    "std": [ABSENT, "c11", "c99"],
 }
 
 VEC_STD, VEC_MY, VEC_CETL = "<vector>", '"my/vec.hpp"', '"cetl/variable_length_array.hpp"'
